@@ -477,7 +477,7 @@ func fieldNameOfStruct(t types.Type, i int) string {
 		t = p.Elem()
 	}
 	if st, ok := t.Underlying().(*types.Struct); ok && i < st.NumFields() {
-		return st.Field(i).Name()
+		return an.CanonFieldName(st.Field(i))
 	}
 	return ""
 }
